@@ -113,6 +113,14 @@ Theorem C12_hypotheses_from_unique_names : forall dev_name objs,
   unique_blocks objs /\ root_name_fresh dev_name objs.
 Proof. intros dev_name objs H1 H2. split; [exact (unique_blocks_of_NoDup objs H1)|exact (root_name_fresh_of_names dev_name objs H2)]. Qed.
 
+(* The hypothesis root_name_fresh is necessary (D11b, found by this model): `block Dev { register X @1 }` in a
+   device named Dev lowers to two blocks named "Dev"; the pass looks sub-blocks up BY NAME, first match, finds the
+   root, and re-enters it for ever: no fuel suffices (the real generator does not return). *)
+Theorem C12_block_named_as_device_refuted :
+  lower false 5 "Dev" dev_named_block = Ok dev_named_blocks /\
+  forall fuel, overlap_pass fuel dev_named_blocks = Fail OutOfFuel.
+Proof. exact (conj dev_named_block_lowering block_named_as_device_never_terminates). Qed.
+
 (* ---------------------------------------------------------------------------------------------- *)
 (* Non-vacuity *)
 
@@ -175,3 +183,4 @@ Print Assumptions C12_kinds_never_collide.
 Print Assumptions C12_error_names_both.
 Print Assumptions C12_error_first_pair.
 Print Assumptions C12_hypotheses_from_unique_names.
+Print Assumptions C12_block_named_as_device_refuted.
